@@ -64,7 +64,8 @@ def _plan(draw, max_rows):
         cols.append({"name": "xi", "kind": "i", "vals": [(i * 7919) % 2001 - 1000 for i in range(n)]})
         cols.append({"name": "xf", "kind": "f", "vals": [[gen.NAN, -3.0, -0.0, 0.0, 0.5, 1.0, 2.5, 1e6][(i * 5 + i // 7) % 8] for i in range(n)]})
     else:
-        cols.append({"name": "xi", "kind": "i", "vals": [draw(st.integers(-1000, 1000)) for _ in range(n)]})
+        xi_pool = st.integers(-1000, 1000) if draw(st.integers(0, 3)) else st.sampled_from([2**53 + 1, 2**53 + 3, 1, 2, -2**53 - 1, 2**60 + 1])
+        cols.append({"name": "xi", "kind": "i", "vals": [draw(xi_pool) for _ in range(n)]})       # now and then integers no float64 holds exactly
         cols.append({"name": "xf", "kind": "f", "vals": [draw(st.sampled_from([gen.NAN, -3.0, -0.0, 0.0, 0.5, 1.0, 2.5, 1e6])) for _ in range(n)]})
     # further value columns whose missing value is not NaN: object booleans with None, strings with "", dates with NaT
     pat = lambda pool: [pool[(i * 7 + i // 3) % len(pool)] for i in range(n)] if n > 40 else [draw(st.sampled_from(pool)) for _ in range(n)]
